@@ -2,6 +2,7 @@ package ir
 
 import (
 	"errors"
+	"slices"
 
 	"github.com/mmcloughlin/avo/attr"
 	"github.com/mmcloughlin/avo/buildtags"
@@ -203,7 +204,7 @@ func NewFunction(name string) *Function {
 func (f *Function) AddPragma(directive string, args ...string) {
 	f.Pragmas = append(f.Pragmas, Pragma{
 		Directive: directive,
-		Arguments: args,
+		Arguments: slices.Clone(args),
 	})
 }
 
